@@ -822,14 +822,23 @@ func runURL(id string, u urlCaseT, st *hx.Stats) string {
 			hit, got = "", nil
 			r.ServeHTTP(rec, req)
 			if hit == "T" {
-				ks := make([]string, 0, len(got))
-				for k := range got {
-					ks = append(ks, k)
+				// parameters in pattern order (AllParams is a map); a name the handler did not see is "?"
+				var ns []string
+				for _, part := range strings.Split(u.Pattern, "/") {
+					if strings.HasPrefix(part, ":") {
+						ns = append(ns, part[1:])
+					}
 				}
-				sort.Strings(ks)
-				l.Tok("T").Nat(len(ks))
-				for _, k := range ks {
-					l.Str(k).Str(got[k])
+				if len(got) != len(ns) {
+					ns = append(ns, "?count")
+				}
+				l.Tok("T").Nat(len(ns))
+				for _, k := range ns {
+					v, ok := got[k]
+					if !ok {
+						v = "?"
+					}
+					l.Str(k).Str(v)
 				}
 			} else {
 				l.Tok("M").Nat(rec.Code) // did not route back
